@@ -609,11 +609,14 @@ impl TraitDef {
                 async fn serve(self) -> (::std::option::Option<Target>, ::std::result::Result<(), ::remoc::rtc::ServeError>) {
                     let Self { mut target, mut req_rx, on_req_receive_error } = self;
                     let (err_tx, mut err_rx) = ::remoc::rtc::reply_error_channel();
+                    // First error that occurred while sending a reply. It only concerns the
+                    // call it belongs to, thus serving continues and it is reported at the end.
+                    let mut reply_err = ::std::option::Option::None;
 
                     let target_opt = loop {
                         ::remoc::rtc::select! {
                             biased;
-                            Some(err) = err_rx.recv() => return (Some(target), Err(err.into())),
+                            Some(err) = err_rx.recv() => { reply_err.get_or_insert(err); },
                             req = req_rx.recv() => {
                                 match req {
                                     Ok(Some(::remoc::rtc::Req::Value(req))) => {
@@ -639,7 +642,8 @@ impl TraitDef {
                     };
 
                     drop(err_tx);
-                    let res = match err_rx.recv().await {
+                    let next_err = err_rx.recv().await;
+                    let res = match reply_err.or(next_err) {
                         None => Ok(()),
                         Some(err) => Err(err.into()),
                     };
@@ -726,11 +730,14 @@ impl TraitDef {
                 async fn serve(self) -> ::std::result::Result<(), ::remoc::rtc::ServeError> {
                     let Self { target, mut req_rx, on_req_receive_error } = self;
                     let (err_tx, mut err_rx) = ::remoc::rtc::reply_error_channel();
+                    // First error that occurred while sending a reply. It only concerns the
+                    // call it belongs to, thus serving continues and it is reported at the end.
+                    let mut reply_err = ::std::option::Option::None;
 
                     let ret = loop {
                         ::remoc::rtc::select! {
                             biased;
-                            Some(err) = err_rx.recv() => return Err(err.into()),
+                            Some(err) = err_rx.recv() => { reply_err.get_or_insert(err); },
                             req = req_rx.recv() => {
                                 match req {
                                     Ok(Some(::remoc::rtc::Req::Ref(req))) => {
@@ -746,7 +753,8 @@ impl TraitDef {
                     };
 
                     drop(err_tx);
-                    match err_rx.recv().await {
+                    let next_err = err_rx.recv().await;
+                    match reply_err.or(next_err) {
                         None => Ok(ret),
                         Some(err) => Err(err.into()),
                     }
@@ -838,11 +846,14 @@ impl TraitDef {
                 async fn serve(self) -> ::std::result::Result<(), ::remoc::rtc::ServeError> {
                     let Self { target, mut req_rx, on_req_receive_error } = self;
                     let (err_tx, mut err_rx) = ::remoc::rtc::reply_error_channel();
+                    // First error that occurred while sending a reply. It only concerns the
+                    // call it belongs to, thus serving continues and it is reported at the end.
+                    let mut reply_err = ::std::option::Option::None;
 
                     let ret = loop {
                         ::remoc::rtc::select! {
                             biased;
-                            Some(err) = err_rx.recv() => return Err(err.into()),
+                            Some(err) = err_rx.recv() => { reply_err.get_or_insert(err); },
                             req = req_rx.recv() => {
                                 match req {
                                     Ok(Some(::remoc::rtc::Req::Ref(req))) => {
@@ -861,7 +872,8 @@ impl TraitDef {
                     };
 
                     drop(err_tx);
-                    match err_rx.recv().await {
+                    let next_err = err_rx.recv().await;
+                    match reply_err.or(next_err) {
                         None => Ok(ret),
                         Some(err) => Err(err.into()),
                     }
@@ -944,11 +956,14 @@ impl TraitDef {
                 async fn serve(self, spawn: bool) -> ::std::result::Result<(), ::remoc::rtc::ServeError> {
                     let Self { target, mut req_rx, on_req_receive_error } = self;
                     let (err_tx, mut err_rx) = ::remoc::rtc::reply_error_channel();
+                    // First error that occurred while sending a reply. It only concerns the
+                    // call it belongs to, thus serving continues and it is reported at the end.
+                    let mut reply_err = ::std::option::Option::None;
 
                     let ret = loop {
                         ::remoc::rtc::select! {
                             biased;
-                            Some(err) = err_rx.recv() => return Err(err.into()),
+                            Some(err) = err_rx.recv() => { reply_err.get_or_insert(err); },
                             req = req_rx.recv() => {
                                 match req {
                                     Ok(Some(::remoc::rtc::Req::Ref(req))) => {
@@ -973,7 +988,8 @@ impl TraitDef {
                     };
 
                     drop(err_tx);
-                    match err_rx.recv().await {
+                    let next_err = err_rx.recv().await;
+                    match reply_err.or(next_err) {
                         None => Ok(ret),
                         Some(err) => Err(err.into()),
                     }
@@ -1062,11 +1078,14 @@ impl TraitDef {
                 async fn serve(self, spawn: bool) -> ::std::result::Result<(), ::remoc::rtc::ServeError> {
                     let Self { target, mut req_rx, on_req_receive_error } = self;
                     let (err_tx, mut err_rx) = ::remoc::rtc::reply_error_channel();
+                    // First error that occurred while sending a reply. It only concerns the
+                    // call it belongs to, thus serving continues and it is reported at the end.
+                    let mut reply_err = ::std::option::Option::None;
 
                     let ret = loop {
                         ::remoc::rtc::select! {
                             biased;
-                            Some(err) = err_rx.recv() => return Err(err.into()),
+                            Some(err) = err_rx.recv() => { reply_err.get_or_insert(err); },
                             req = req_rx.recv() => {
                                 match req {
                                     Ok(Some(::remoc::rtc::Req::Ref(req))) => {
@@ -1096,7 +1115,8 @@ impl TraitDef {
                     };
 
                     drop(err_tx);
-                    match err_rx.recv().await {
+                    let next_err = err_rx.recv().await;
+                    match reply_err.or(next_err) {
                         None => Ok(ret),
                         Some(err) => Err(err.into()),
                     }
